@@ -273,7 +273,19 @@ def inline_into(facts, path, is_new, stack=(), log=None):
         blk = f["blocks"][bi]
         t = blk["term"]
         callee = callee_of(t, facts)
-        if (callee is None or not is_new(callee) or callee == path or callee in stack or depth >= MAX_DEPTH
+        # a closure of this very function called directly (`let f = |x| ..; f(a)`): Fn::call(&f, (a,)) with the body as callee
+        direct_closure = (callee is not None and facts.fns[callee]["kind"] == "Closure" and callee.startswith(path + "::{closure")
+                          and t["func"].get("k") == "fn" and t["func"].get("path", "").startswith("std::ops::Fn")
+                          and len(t["args"]) == 2 and t["args"][1].get("k") in ("move", "copy") and not t["args"][1]["place"]["proj"]
+                          and t.get("target") is not None and depth < MAX_DEPTH and len(f["blocks"]) <= MAX_BLOCKS and callee not in stack)
+        if direct_closure:
+            g0 = facts.fns[callee]
+            tup = t["args"][1]["place"]
+            t = dict(t)
+            t["args"] = [t["args"][0]] + [{"k": "copy", "place": {"local": tup["local"], "proj": [{"k": "field", "i": k_, "name": str(k_)}], "ty": g0["locals"][2 + k_]["ty"]}}
+                                        for k_ in range(g0["arg_count"] - 1)]
+            blk["term"] = t
+        if not direct_closure and (callee is None or not is_new(callee) or callee == path or callee in stack or depth >= MAX_DEPTH
                 or t.get("target") is None or len(f["blocks"]) > MAX_BLOCKS
                 or facts.fns[callee]["kind"] not in ("Fn", "AssocFn") or not facts.fns[callee]["blocks"]):
             bi += 1
@@ -364,7 +376,9 @@ def inline_new_helpers(facts, vocabulary):
     if vocabulary is None:
         return []
     new = {p for p, f in facts.fns.items() if f["kind"] in ("Fn", "AssocFn") and p not in vocabulary}
-    if not new:
+    has_direct_closure_calls = any(t_["k"] == "call" and t_["func"].get("k") == "fn" and t_["func"].get("path", "").startswith("std::ops::Fn")
+                                   and "{closure" in (t_["func"].get("resolved") or "") for f_ in facts.fns.values() for b_ in f_["blocks"] for t_ in [b_["term"]])
+    if not new and not has_direct_closure_calls:
         return []
     log = []
     for p in sorted(facts.fns):
